@@ -154,6 +154,14 @@ def raw_apps(iface):
                         yield b"h"
                         yield b"ello"
                     return g()
+                if shape == "map_raise_later":  # an iterable without close() (a map object) that fails at its second piece
+                    def piece(i):
+                        if i == 1:
+                            raise Boom("second piece")
+                        return b"p%d" % i
+                    return map(piece, range(3))
+                if shape == "iter_list":
+                    return iter([b"he", b"llo"])
                 if shape == "closeable":
                     class It:
                         def __init__(s):
@@ -202,7 +210,7 @@ def raw_apps(iface):
             app.calls = 0
             app.closed = 0
             return app
-        return {s: (lambda s=s: mk(s)) for s in ("list", "no_headers", "list_caps", "cookie_ws", "restart_exc_info", "list2", "tuple", "empty", "empty_iter", "gen", "closeable", "raise_before", "raise_after_start", "raise_after_chunk", "empty_then_raise", "empty_then_body", "sees_environ", "sees_falsy", "gen_raise_before_start", "typeerror_before", "attributeerror_before")}
+        return {s: (lambda s=s: mk(s)) for s in ("list", "map_raise_later", "iter_list", "no_headers", "list_caps", "cookie_ws", "restart_exc_info", "list2", "tuple", "empty", "empty_iter", "gen", "closeable", "raise_before", "raise_after_start", "raise_after_chunk", "empty_then_raise", "empty_then_body", "sees_environ", "sees_falsy", "gen_raise_before_start", "typeerror_before", "attributeerror_before")}
 
     def amk(shape):
         async def app(scope, receive, send):
